@@ -26,7 +26,7 @@ Qed.
 (* ---------------- Append ---------------- *)
 Lemma vinv_append : forall d st given, cinv st -> vinv st given -> vinv (fst (step (Append d) st)) (ghost_step (Append d) st given).
 Proof.
-  intros d st given Hc (Hv & Hng & Hinc & Hw). simpl.
+  intros d st given Hc (Hv & Hng & Hinc & Hd & Hs & Hcmp). simpl.
   destruct (zmem d (dc st)) eqn:Ed; simpl; [unfold vinv; tauto |].
   apply zmem_false in Ed.
   set (nw := new_subs (next st) (map (fun g => (d, g)) (groups st))).
@@ -35,18 +35,18 @@ Proof.
   destruct (fold_created nw st1 Hv1) as [Hv' [Hsc Ha]].
   destruct Hsc as (_ & Hdc & _ & Hsb & _).
   assert (Hnot : ~ In d given) by (intro H; apply Ed; apply Hinc; exact H).
-  unfold vinv. split; [exact Hv' |]. split; [exact Hng |]. split.
+  assert (Hsame : forall l, In l (arts (fold_left (fun v s => on_sub_created s v) nw st1)) <-> In l (arts st)).
+  { intros l. rewrite Ha. unfold st1 at 1 2; simpl. split; [| tauto].
+    intros [H | [s [Hs0 [_ Hd0]]]]; [exact H |].
+    destruct (new_subs_data _ _ _ _ Hs0) as [E _]. rewrite E in Hd0. exfalso. apply Hnot. apply Hd. exact Hd0. }
+  unfold vinv. split; [exact Hv' |]. split; [exact Hng |]. split; [| split; [| split]].
   - intros x Hx. rewrite Hdc. unfold st1; simpl. apply in_or_app. left. apply Hinc. exact Hx.
-  - intros l. rewrite Ha. rewrite Hsb. unfold st1 at 1 2; simpl.
-    assert (Hno : ~ exists s, In s nw /\ l = lay s /\ In (LData (s_d s)) (arts st)).
-    { intros [s [Hs [_ Hd]]]. destruct (new_subs_data _ _ _ _ Hs) as [E _]. rewrite E in Hd.
-      apply Hnot. apply (Hw (LData d)). exact Hd. }
-    rewrite Hw. split.
-    + intros [H | H]; [| contradiction]. destruct l as [d' | s d' g]; simpl in *; [exact H |].
-      destruct H as [H1 [lv H2]]. split; [exact H1 |]. exists lv. apply in_or_app. left. exact H2.
-    + intros H. left. destruct l as [d' | s d' g]; simpl in *; [exact H |].
-      destruct H as [H1 [lv H2]]. split; [exact H1 |]. exists lv. apply in_app_or in H2. destruct H2 as [H2 | H2]; [exact H2 |].
-      exfalso. destruct (new_subs_data _ _ _ _ H2) as [E _]. simpl in E. subst d'. contradiction.
+  - intros d'. rewrite Hsame. apply Hd.
+  - intros s d' g Hin. rewrite Hsame in Hin. destruct (Hs s d' g Hin) as [A [lv B]].
+    rewrite Hdc, Hsb. unfold st1; simpl. split; [apply in_or_app; left; exact A |]. exists lv. apply in_or_app. left. exact B.
+  - intros x Hx Hg. rewrite Hsame. rewrite Hsb in Hx. unfold st1 in Hx; simpl in Hx. apply in_app_or in Hx. destruct Hx as [Hx | Hx].
+    + apply Hcmp; assumption.
+    + exfalso. destruct (new_subs_data _ _ _ _ Hx) as [E _]. rewrite E in Hg. contradiction.
 Qed.
 
 (* ---------------- Remove ---------------- *)
@@ -68,78 +68,105 @@ Proof.
       destruct (d' =? d) eqn:E2; [apply Z.eqb_eq in E2; contradiction | reflexivity].
 Qed.
 
-Lemma wanted_after_filter_data : forall d sb sb' given l,
-  (forall s d' g, d' <> d -> ((exists lv, In (mkSub s d' g lv) sb') <-> exists lv, In (mkSub s d' g lv) sb)) ->
-  (wanted sb given l /\ layer_data l <> d <-> wanted sb' (zremove d given) l).
+Lemma subs_after_remove_back : forall (fx : bool) d sb x, s_d x <> d ->
+  In x (if fx then filter (fun x => negb ((s_d x =? d) && s_live x)) sb
+        else map (fun x => if s_d x =? d then unlive x else x) sb) -> In x sb.
 Proof.
-  intros d sb sb' given l H. destruct l as [d' | s d' g]; simpl.
-  - rewrite In_zremove. tauto.
-  - rewrite In_zremove. split.
-    + intros [[H1 H2] H3]. split; [tauto |]. apply H; assumption.
-    + intros [[H1 H3] H2]. split; [split; [exact H1 |] | exact H3]. apply (H s d' g H3). exact H2.
+  intros fx d sb x Hne H. destruct fx.
+  - apply filter_In in H. tauto.
+  - apply in_map_iff in H. destruct H as [y [E Hy]]. destruct (s_d y =? d) eqn:E2.
+    + apply Z.eqb_eq in E2. subst x. simpl in Hne. contradiction.
+    + subst y. exact Hy.
 Qed.
 
 Lemma vinv_remove : forall d st given, cinv st -> vinv st given -> vinv (fst (step (Remove d) st)) (ghost_step (Remove d) st given).
 Proof.
-  intros d st given Hc (Hv & Hng & Hinc & Hw). simpl.
+  intros d st given Hc (Hv & Hng & Hinc & Hd & Hs & Hcmp). simpl.
   destruct (negb (zmem d (dc st))) eqn:Ed; simpl.
   - apply negb_true_iff in Ed. apply zmem_false in Ed.
     rewrite zremove_notin; [unfold vinv; tauto |]. intro H. apply Ed. apply Hinc. exact H.
   - set (st1 := mkV _ _ _ _ _ _ _).
     assert (Hv1 : vsync st1) by exact Hv.
-    destruct (remove_data_spec d st1 Hv1) as [Ha [Hs Hsc]].
+    destruct (remove_data_spec d st1 Hv1) as [Ha [Hss Hsc]].
     destruct Hsc as (_ & Hdc & _ & Hsb & _).
-    unfold vinv. split; [eapply vsync_filter; eassumption |]. split; [apply NoDup_filter'; exact Hng |]. split.
+    assert (Hin : forall l, In l (arts (remove_data d st1)) <-> In l (arts st) /\ layer_data l <> d).
+    { intros l. rewrite Ha. rewrite filter_In. unfold st1; simpl. rewrite negb_true_iff. rewrite Z.eqb_neq. tauto. }
+    unfold vinv. split; [eapply vsync_filter; eassumption |]. split; [apply NoDup_filter'; exact Hng |]. split; [| split; [| split]].
     + intros x Hx. apply In_zremove in Hx. rewrite Hdc. unfold st1; simpl. apply In_zremove. split; [apply Hinc; tauto | tauto].
-    + intros l. rewrite Ha. rewrite Hsb. rewrite filter_In. unfold st1; simpl.
-      rewrite <- (wanted_after_filter_data d (subs st)).
-      * rewrite Hw. rewrite negb_true_iff. rewrite Z.eqb_neq. tauto.
-      * intros s d' g Hne. apply subs_after_remove_other. exact Hne.
+    + intros d'. rewrite Hin. simpl. rewrite Hd. rewrite In_zremove. tauto.
+    + intros s d' g H. apply Hin in H. simpl in H. destruct H as [H Hne]. destruct (Hs s d' g H) as [A B].
+      rewrite Hdc, Hsb. unfold st1; simpl. split; [apply In_zremove; tauto |]. apply subs_after_remove_other; assumption.
+    + intros x Hx Hg. apply In_zremove in Hg. destruct Hg as [Hg Hne]. rewrite Hsb in Hx. unfold st1 in Hx; simpl in Hx.
+      apply subs_after_remove_back in Hx; [| exact Hne].
+      apply Hin. split; [apply Hcmp; assumption |]. destruct x; simpl in *. exact Hne.
 Qed.
 
 (* ---------------- RemoveData ---------------- *)
 Lemma vinv_remove_data : forall d st given, cinv st -> vinv st given -> vinv (fst (step (RemoveData d) st)) (ghost_step (RemoveData d) st given).
 Proof.
-  intros d st given Hc (Hv & Hng & Hinc & Hw). simpl.
-  destruct (remove_data_spec d st Hv) as [Ha [Hs Hsc]].
+  intros d st given Hc (Hv & Hng & Hinc & Hd & Hs & Hcmp). simpl.
+  destruct (remove_data_spec d st Hv) as [Ha [Hss Hsc]].
   destruct Hsc as (_ & Hdc & _ & Hsb & _).
-  unfold vinv. split; [eapply vsync_filter; eassumption |]. split; [apply NoDup_filter'; exact Hng |]. split.
+  assert (Hin : forall l, In l (arts (remove_data d st)) <-> In l (arts st) /\ layer_data l <> d).
+  { intros l. rewrite Ha. rewrite filter_In. rewrite negb_true_iff. rewrite Z.eqb_neq. tauto. }
+  unfold vinv. split; [eapply vsync_filter; eassumption |]. split; [apply NoDup_filter'; exact Hng |]. split; [| split; [| split]].
   - intros x Hx. apply In_zremove in Hx. rewrite Hdc. apply Hinc. tauto.
-  - intros l. rewrite Ha. rewrite filter_In. rewrite Hsb.
-    rewrite <- (wanted_after_filter_data d (subs st)).
-    + rewrite Hw. rewrite negb_true_iff. rewrite Z.eqb_neq. tauto.
-    + intros. tauto.
+  - intros d'. rewrite Hin. simpl. rewrite Hd. rewrite In_zremove. tauto.
+  - intros s d' g H. apply Hin in H. destruct H as [H _]. rewrite Hdc, Hsb. apply Hs. exact H.
+  - intros x Hx Hg. apply In_zremove in Hg. destruct Hg as [Hg Hne]. rewrite Hsb in Hx.
+    apply Hin. split; [apply Hcmp; assumption |]. destruct x; simpl in *. exact Hne.
+Qed.
+
+(* ---------------- RemoveLayer (the dataset's own layer only) ---------------- *)
+Lemma vinv_remove_layer : forall d st given, cinv st -> vinv st given -> vinv (fst (step (RemoveLayer d) st)) (ghost_step (RemoveLayer d) st given).
+Proof.
+  intros d st given Hc (Hv & Hng & Hinc & Hd & Hs & Hcmp). simpl.
+  destruct (remove_subset_spec (LData d) st Hv) as [Ha [Hss Hsc]].
+  destruct Hsc as (_ & Hdc & _ & Hsb & _).
+  assert (Hin : forall l, In l (arts (remove_subset (LData d) st)) <-> In l (arts st) /\ l <> LData d).
+  { intros l. rewrite Ha. rewrite filter_In. rewrite negb_true_iff. split; intros [A B]; split; try exact A.
+    - intro E. subst l. assert (layer_eqb (LData d) (LData d) = true) by (apply layer_eqb_eq; reflexivity). congruence.
+    - destruct (layer_eqb (LData d) l) eqn:E; [| reflexivity]. apply layer_eqb_eq in E. congruence. }
+  unfold vinv. split; [eapply vsync_filter; eassumption |]. split; [apply NoDup_filter'; exact Hng |]. split; [| split; [| split]].
+  - intros x Hx. apply In_zremove in Hx. rewrite Hdc. apply Hinc. tauto.
+  - intros d'. rewrite Hin. rewrite Hd. rewrite In_zremove. split.
+    + intros [A B]. split; [exact A |]. intro E. apply B. congruence.
+    + intros [A B]. split; [exact A |]. intro E. apply B. congruence.
+  - intros s d' g H. apply Hin in H. destruct H as [H _]. rewrite Hdc, Hsb. apply Hs. exact H.
+  - intros x Hx Hg. apply In_zremove in Hg. destruct Hg as [Hg _]. rewrite Hsb in Hx.
+    apply Hin. split; [apply Hcmp; assumption | discriminate].
 Qed.
 
 (* ---------------- NewGroup ---------------- *)
 Lemma vinv_new_group : forall g st given, cinv st -> vinv st given -> vinv (fst (step (NewGroup g) st)) (ghost_step (NewGroup g) st given).
 Proof.
-  intros g st given Hc (Hv & Hng & Hinc & Hw). simpl.
+  intros g st given Hc (Hv & Hng & Hinc & Hd & Hs & Hcmp). simpl.
   destruct (zmem g (groups st)) eqn:Eg; simpl; [unfold vinv; tauto |].
   set (nw := new_subs (next st) (map (fun d => (d, g)) (dc st))).
   set (st1 := mkV _ _ _ _ _ _ _).
   assert (Hv1 : vsync st1) by exact Hv.
   destruct (fold_created nw st1 Hv1) as [Hv' [Hsc Ha]].
   destruct Hsc as (_ & Hdc & _ & Hsb & _).
-  unfold vinv. split; [exact Hv' |]. split; [exact Hng |]. split.
+  unfold vinv. split; [exact Hv' |]. split; [exact Hng |]. split; [| split; [| split]].
   - intros x Hx. rewrite Hdc. unfold st1; simpl. apply Hinc. exact Hx.
-  - intros l. rewrite Ha. rewrite Hsb. unfold st1 at 1 2 3; simpl. rewrite Hw.
-    destruct l as [d | s d g']; simpl.
-    + split; [| tauto]. intros [H | [s [_ [H _]]]]; [exact H | discriminate].
-    + split.
-      * intros [[H1 [lv H2]] | [s0 [Hs0 [E Hd]]]].
-        -- split; [exact H1 |]. exists lv. apply in_or_app. left. exact H2.
-        -- symmetry in E. apply lay_eq in E. destruct E as [lv E]. subst s0. simpl in Hd.
-           split; [apply (Hw (LData d)); exact Hd |]. exists lv. apply in_or_app. right. exact Hs0.
-      * intros [H1 [lv H2]]. apply in_app_or in H2. destruct H2 as [H2 | H2].
-        -- left. split; [exact H1 |]. exists lv. exact H2.
-        -- right. exists (mkSub s d g' lv). split; [exact H2 |]. split; [reflexivity |]. simpl. apply (Hw (LData d)). exact H1.
+  - intros d. rewrite Ha. unfold st1 at 1 2; simpl. rewrite Hd. split; [| tauto].
+    intros [H | [s [_ [H _]]]]; [exact H | discriminate].
+  - intros s d g' H. apply Ha in H. unfold st1 at 1 2 in H; simpl in H. rewrite Hdc, Hsb. unfold st1; simpl.
+    destruct H as [H | [s0 [Hs0 [E _]]]].
+    + destruct (Hs s d g' H) as [A [lv B]]. split; [exact A |]. exists lv. apply in_or_app. left. exact B.
+    + symmetry in E. apply lay_eq in E. destruct E as [lv E]. subst s0.
+      destruct (new_subs_group _ _ _ _ Hs0) as [_ [A _]]. simpl in A.
+      split; [exact A |]. exists lv. apply in_or_app. right. exact Hs0.
+  - intros x Hx Hg. apply Ha. unfold st1 at 1 2; simpl. rewrite Hsb in Hx. unfold st1 in Hx; simpl in Hx.
+    apply in_app_or in Hx. destruct Hx as [Hx | Hx].
+    + left. apply Hcmp; assumption.
+    + right. exists x. split; [exact Hx |]. split; [reflexivity |]. apply Hd. exact Hg.
 Qed.
 
 (* ---------------- RemoveGroup ---------------- *)
 Lemma vinv_remove_group : forall g st given, cinv st -> vinv st given -> vinv (fst (step (RemoveGroup g) st)) (ghost_step (RemoveGroup g) st given).
 Proof.
-  intros g st given Hc (Hv & Hng & Hinc & Hw). simpl.
+  intros g st given Hc (Hv & Hng & Hinc & Hd & Hs & Hcmp). simpl.
   destruct (negb (zmem g (groups st))) eqn:Eg; simpl; [unfold vinv; tauto |].
   set (p := fun s : sub => (s_g s =? g) && s_live s).
   set (dead := filter _ (subs st)).
@@ -148,34 +175,33 @@ Proof.
   destruct (fold_deleted dead st1 Hv1) as [Hv' [Hsc Ha]].
   destruct Hsc as (_ & Hdc & _ & Hsb & _).
   destruct Hc as (_ & _ & Hids & _).
-  unfold vinv. split; [exact Hv' |]. split; [exact Hng |]. split.
+  unfold vinv. split; [exact Hv' |]. split; [exact Hng |]. split; [| split; [| split]].
   - intros x Hx. rewrite Hdc. unfold st1; simpl. apply Hinc. exact Hx.
-  - intros l. rewrite Ha. rewrite Hsb. unfold st1 at 1 2; simpl. rewrite Hw.
-    destruct l as [d | s d g']; simpl.
-    + split; [tauto |]. intros H. split; [exact H |]. intros s _. discriminate.
-    + split.
-      * intros [[H1 [lv H2]] H3]. split; [exact H1 |]. exists lv. apply filter_In. split; [exact H2 |].
-        apply negb_true_iff. destruct (p (mkSub s d g' lv)) eqn:Ep; [| exact Ep].
-        exfalso. apply (H3 (mkSub s d g' lv)); [apply filter_In; split; [exact H2 | exact Ep] | reflexivity].
-      * intros [H1 [lv H2]]. apply filter_In in H2. destruct H2 as [H2 Hp]. apply negb_true_iff in Hp.
-        split; [split; [exact H1 | exists lv; exact H2] |].
-        intros s' Hs' E. apply filter_In in Hs'. destruct Hs' as [Hs' Hp'].
-        symmetry in E. apply lay_eq in E. destruct E as [lv' E].
-        assert (s' = mkSub s d g' lv).
-        { apply (NoDup_map_inj (subs st)); [exact Hids | exact Hs' | exact H2 | subst s'; reflexivity]. }
-        clear E. subst s'. unfold p in Hp, Hp'. simpl in Hp, Hp'. congruence.
+  - intros d. rewrite Ha. unfold st1 at 1; simpl. rewrite Hd. split; [tauto |]. intros H. split; [exact H |]. intros s _. discriminate.
+  - intros s d g' H. apply Ha in H. unfold st1 at 1 in H; simpl in H. destruct H as [H H3].
+    destruct (Hs s d g' H) as [A [lv B]]. rewrite Hdc, Hsb. unfold st1; simpl. split; [exact A |].
+    exists lv. apply filter_In. split; [exact B |].
+    apply negb_true_iff. destruct (p (mkSub s d g' lv)) eqn:Ep; [| exact Ep].
+    exfalso. apply (H3 (mkSub s d g' lv)); [apply filter_In; split; [exact B | exact Ep] | reflexivity].
+  - intros x Hx Hg. rewrite Hsb in Hx. unfold st1 in Hx; simpl in Hx. apply filter_In in Hx. destruct Hx as [Hx Hp].
+    apply negb_true_iff in Hp.
+    apply Ha. unfold st1 at 1; simpl. split; [apply Hcmp; assumption |].
+    intros s' Hs' E. apply filter_In in Hs'. destruct Hs' as [Hs' Hp'].
+    assert (s' = x).
+    { apply (NoDup_map_inj (subs st)); [exact Hids | exact Hs' | exact Hx |]. destruct x, s'; unfold lay in E; simpl in *. congruence. }
+    subst s'. fold p in Hp'. unfold p in Hp, Hp'. congruence.
 Qed.
 
 (* ---------------- AddData ---------------- *)
 Lemma vinv_add_data : forall d st given, cinv st -> vinv st given -> vinv (fst (step (AddData d) st)) (ghost_step (AddData d) st given).
 Proof.
-  intros d st given Hc (Hv & Hng & Hinc & Hw). simpl. unfold add_data.
+  intros d st given Hc (Hv & Hng & Hinc & Hd & Hs & Hcmp). simpl. unfold add_data.
   destruct (has (LData d) (arts st)) eqn:E0; simpl.
-  - apply has_In in E0. apply (Hw (LData d)) in E0. simpl in E0. apply zmem_In in E0. rewrite E0. simpl. rewrite andb_false_r.
+  - apply has_In in E0. apply Hd in E0. apply zmem_In in E0. rewrite E0. simpl. rewrite andb_false_r.
     unfold vinv; tauto.
   - apply has_false in E0.
     destruct (zmem d (dc st)) eqn:E1; simpl; [| unfold vinv; tauto].
-    assert (Hnot : ~ In d given) by (intro H; apply E0; apply (Hw (LData d)); exact H).
+    assert (Hnot : ~ In d given) by (intro H; apply E0; apply Hd; exact H).
     assert (E2 : zmem d given = false) by (apply zmem_false; exact Hnot). rewrite E2. simpl.
     apply zmem_In in E1.
     destruct (add_layer_spec (LData d) st Hv E0) as [A [B C]].
@@ -183,51 +209,51 @@ Proof.
     { split; [rewrite A, B; reflexivity | rewrite A; apply NoDup_snoc; [apply Hv | exact E0]]. }
     destruct (fold_add_subsets (dsubs (subs st) d) _ Hv1) as [Hv' [Hsc Ha]].
     destruct Hsc as (_ & Hdc & _ & Hsb & _). destruct C as (_ & Cdc & _ & Csb & _).
-    unfold vinv. split; [exact Hv' |]. split; [apply NoDup_snoc; assumption |]. split.
+    unfold vinv. split; [exact Hv' |]. split; [apply NoDup_snoc; assumption |]. split; [| split; [| split]].
     + intros x Hx. rewrite Hdc, Cdc. apply in_app_or in Hx. destruct Hx as [Hx | [Hx | []]]; [apply Hinc; exact Hx | subst; exact E1].
-    + intros l. rewrite Ha. rewrite A. rewrite Hsb, Csb. rewrite in_app_iff. rewrite Hw. simpl.
-      destruct l as [d' | s d' g]; simpl.
-      * rewrite in_app_iff. simpl. split.
-        -- intros [[H | [H | []]] | [s [_ H]]]; [tauto | inversion H; tauto | discriminate].
-        -- intros [H | [H | []]]; [tauto | subst; tauto].
-      * rewrite in_app_iff. simpl. split.
-        -- intros [[[H1 H2] | [H | []]] | [s0 [Hs0 E]]]; [tauto | discriminate |].
-           symmetry in E. apply lay_eq in E. destruct E as [lv E]. subst s0.
-           unfold dsubs in Hs0. apply filter_In in Hs0. destruct Hs0 as [Hs0 Hd]. simpl in Hd. apply Z.eqb_eq in Hd. subst d'.
-           split; [tauto |]. exists lv. exact Hs0.
-        -- intros [[H1 | [H1 | []]] [lv H2]].
-           ++ left. left. split; [exact H1 | exists lv; exact H2].
-           ++ subst d'. right. exists (mkSub s d g lv). split; [| reflexivity].
-              unfold dsubs. apply filter_In. split; [exact H2 | simpl; apply Z.eqb_refl].
+    + intros d'. rewrite Ha. rewrite A. rewrite !in_app_iff. simpl. rewrite Hd. split.
+      * intros [[H | [H | []]] | [s [_ H]]]; [tauto | inversion H; tauto | discriminate].
+      * intros [H | [H | []]]; [tauto | subst; tauto].
+    + intros s d' g H. apply Ha in H. rewrite A in H. rewrite in_app_iff in H. simpl in H. rewrite Hdc, Cdc, Hsb, Csb.
+      destruct H as [[H | [H | []]] | [s0 [Hs0 E]]]; [apply Hs; exact H | discriminate |].
+      symmetry in E. apply lay_eq in E. destruct E as [lv E]. subst s0.
+      unfold dsubs in Hs0. apply filter_In in Hs0. destruct Hs0 as [Hs0 Hdd]. simpl in Hdd. apply Z.eqb_eq in Hdd. subst d'.
+      split; [exact E1 |]. exists lv. exact Hs0.
+    + intros x Hx Hg. rewrite Hsb, Csb in Hx. apply Ha. rewrite A. rewrite in_app_iff.
+      apply in_app_or in Hg. destruct Hg as [Hg | [Hg | []]].
+      * left. left. apply Hcmp; assumption.
+      * right. exists x. split; [| reflexivity]. unfold dsubs. apply filter_In. split; [exact Hx |]. apply Z.eqb_eq. symmetry. exact Hg.
 Qed.
 
 (* ---------------- AddSubset ---------------- *)
 Lemma vinv_add_subset : forall s d g st given, cinv st -> vinv st given -> vinv (fst (step (AddSubset s d g) st)) (ghost_step (AddSubset s d g) st given).
 Proof.
-  intros s d g st given Hc (Hv & Hng & Hinc & Hw). simpl.
-  destruct (has (LData d) (arts st) && sub_known (subs st) s d g) eqn:E; simpl; [| unfold vinv; tauto].
-  apply andb_true_iff in E. destruct E as [E1 E2]. apply has_In in E1.
+  intros s d g st given Hc (Hv & Hng & Hinc & Hd & Hs & Hcmp). simpl.
+  destruct (zmem d (dc st) && sub_known (subs st) s d g) eqn:E; simpl; [| unfold vinv; tauto].
+  apply andb_true_iff in E. destruct E as [E1 E2]. apply zmem_In in E1.
   unfold sub_known in E2. apply existsb_exists in E2. destruct E2 as [x [Hx E2]].
   apply andb_true_iff in E2. destruct E2 as [E2 E5]. apply andb_true_iff in E2. destruct E2 as [E3 E4].
   apply Z.eqb_eq in E3, E4, E5.
-  assert (Hwant : wanted (subs st) given (LSub s d g)).
-  { simpl. split; [apply (Hw (LData d)); exact E1 |]. exists (s_live x). rewrite (sub_eta x) in Hx. rewrite E3, E4, E5 in Hx. exact Hx. }
+  assert (Hknown : exists lv, In (mkSub s d g lv) (subs st)).
+  { exists (s_live x). rewrite (sub_eta x) in Hx. rewrite E3, E4, E5 in Hx. exact Hx. }
   destruct (add_subset_layer_spec (LSub s d g) st Hv) as [Hv' [Hsc Ha]].
   destruct Hsc as (_ & Hdc & _ & Hsb & _).
-  unfold vinv. split; [exact Hv' |]. split; [exact Hng |]. split.
+  unfold vinv. split; [exact Hv' |]. split; [exact Hng |]. split; [| split; [| split]].
   - intros y Hy. rewrite Hdc. apply Hinc. exact Hy.
-  - intros l. rewrite Ha. rewrite Hsb. rewrite Hw. split; [| tauto]. intros [H | H]; [exact H | subst; exact Hwant].
+  - intros d'. rewrite Ha. rewrite Hd. split; [| tauto]. intros [H | H]; [exact H | discriminate].
+  - intros s' d' g' H. apply Ha in H. rewrite Hdc, Hsb. destruct H as [H | H]; [apply Hs; exact H |].
+    inversion H. subst. split; [exact E1 | exact Hknown].
+  - intros y Hy Hg. rewrite Hsb in Hy. apply Ha. left. apply Hcmp; assumption.
 Qed.
 
 (* ---------------- SaveRestore ---------------- *)
 Lemma vinv_save_restore : forall st given, cinv st -> vinv st given -> vinv (fst (step SaveRestore st)) (ghost_step SaveRestore st given).
 Proof.
-  intros st given Hc (Hv & Hng & Hinc & Hw). simpl.
-  unfold vinv. split; [exact Hv |]. split; [exact Hng |]. split; [exact Hinc |].
-  simpl. intros l. rewrite Hw. destruct l as [d | s d g]; simpl; [tauto |].
-  split; intros [H1 [lv H2]]; (split; [exact H1 |]); exists lv.
-  - apply filter_In. split; [exact H2 |]. simpl. apply zmem_In. apply Hinc. exact H1.
-  - apply filter_In in H2. tauto.
+  intros st given Hc (Hv & Hng & Hinc & Hd & Hs & Hcmp). simpl.
+  unfold vinv. split; [exact Hv |]. split; [exact Hng |]. split; [exact Hinc |]. split; [exact Hd |]. simpl. split.
+  - intros s d g H. destruct (Hs s d g H) as [A [lv B]]. split; [exact A |]. exists lv.
+    apply filter_In. split; [exact B |]. simpl. apply zmem_In. exact A.
+  - intros x Hx Hg. apply filter_In in Hx. apply Hcmp; tauto.
 Qed.
 
 Lemma step_vinv : forall o st given, cinv st -> vinv st given -> vinv (fst (step o st)) (ghost_step o st given).
@@ -241,11 +267,12 @@ Proof.
   - apply vinv_remove_data; assumption.
   - apply vinv_add_subset; assumption.
   - apply vinv_save_restore; assumption.
+  - apply vinv_remove_layer; assumption.
 Qed.
 
 Lemma step_fixed : forall o st, vsync st -> fixed (fst (step o st)) = fixed st.
 Proof.
-  intros o st Hv. destruct o as [d | d | g | g | d | d | s d g |]; cbn [step].
+  intros o st Hv. destruct o as [d | d | g | g | d | d | s d g | | d]; cbn [step].
   - destruct (zmem d (dc st)); simpl; [reflexivity |].
     match goal with |- fixed (fold_left ?f ?nw ?s1) = _ =>
       assert (Hv1 : vsync s1) by exact Hv; destruct (fold_created nw s1 Hv1) as [_ [Hsc _]]; destruct Hsc as [H _]; exact H end.
@@ -265,9 +292,10 @@ Proof.
     { split; [rewrite A, B; reflexivity | rewrite A; apply NoDup_snoc; [apply Hv | exact E0]]. }
     destruct (fold_add_subsets (dsubs (subs st) d) _ Hv1) as [_ [Hsc _]]. destruct Hsc as [H _]. destruct C as [C _]. congruence.
   - cbn [fst]. destruct (remove_data_spec d st Hv) as [_ [_ Hsc]]. destruct Hsc as [H _]. exact H.
-  - destruct (has (LData d) (arts st) && sub_known (subs st) s d g); simpl; [| reflexivity].
+  - destruct (zmem d (dc st) && sub_known (subs st) s d g); simpl; [| reflexivity].
     destruct (add_subset_layer_spec (LSub s d g) st Hv) as [_ [Hsc _]]. destruct Hsc as [H _]. exact H.
   - reflexivity.
+  - cbn [fst]. destruct (remove_subset_spec (LData d) st Hv) as [_ [_ Hsc]]. destruct Hsc as [H _]. exact H.
 Qed.
 
 (* ---------------- reachability ---------------- *)
@@ -288,16 +316,18 @@ Proof.
   split; [reflexivity |]. split.
   - repeat split; try constructor.
   - split; [split; [reflexivity | constructor] |]. split; [constructor |]. split; [intros d [] |].
-    intros l. split; [intros [] |]. destruct l; simpl; [intros [] | intros [[] _]].
+    split; [intros d; tauto |]. split; [intros s d g [] | intros x []].
 Qed.
 
 (* full statement.  After every history of collection operations (append / remove a dataset, create / remove a subset
-   group, save and restore the session) and viewer operations (add_data, remove_data, add_subset of a current subset of
-   a shown dataset), with `given` = the datasets handed to the viewer and not taken away since:
+   group, save and restore the session) and viewer operations (add_data, remove_data, add_subset of any current subset
+   of a dataset in the collection - also when the viewer does not show that dataset -, remove_layer of a dataset's own
+   layer), with `given` = the datasets handed to the viewer with add_data and not taken away since:
    - the artist list and state.layers are the same list, without repetition;
-   - every given dataset is still in the collection;
-   - the dataset layers are exactly the given datasets, the subset layers are exactly the current subsets (members of
-     data.subsets) of the given datasets: one layer each, nothing else;
+   - the dataset layers are exactly the given datasets, all of them in the collection;
+   - every subset layer is a current subset (member of data.subsets) of a dataset that is in the collection: nothing
+     remains for removed datasets, subsets or groups;
+   - every current subset of a given dataset has its layer (with the previous item and NoDup: exactly one);
    - on a tree where dc.remove detaches the grouped subsets (C06 repaired) every subset layer belongs to a live group. *)
 Theorem viewer_inv_reachable : forall (fx : bool) (ops : list op),
   let st := fst (run_v ops (init_v fx) []) in
@@ -305,15 +335,17 @@ Theorem viewer_inv_reachable : forall (fx : bool) (ops : list op),
   sls st = arts st /\ NoDup (arts st) /\ NoDup given /\
   (forall d, In d given -> In d (dc st)) /\
   (forall d, In (LData d) (arts st) <-> In d given) /\
-  (forall s d g, In (LSub s d g) (arts st) <-> In d given /\ exists lv, In (mkSub s d g lv) (subs st)) /\
-  (fx = true -> forall s d g, In (LSub s d g) (arts st) -> In d (dc st) /\ In g (groups st)).
+  (forall s d g, In (LSub s d g) (arts st) -> In d (dc st) /\ exists lv, In (mkSub s d g lv) (subs st)) /\
+  (forall s d g lv, In d given -> In (mkSub s d g lv) (subs st) -> In (LSub s d g) (arts st)) /\
+  (fx = true -> forall s d g, In (LSub s d g) (arts st) -> In g (groups st)).
 Proof.
   intros fx ops st given.
   destruct (run_v_inv fx ops _ _ (init_inv fx)) as [Hf [Hc Hv]]. fold st in Hf, Hc, Hv. fold given in Hv.
-  destruct Hv as ([Hs Hn] & Hng & Hinc & Hw).
+  destruct Hv as ([Hs Hn] & Hng & Hinc & Hd & Hsub & Hcmp).
   split; [exact Hs |]. split; [exact Hn |]. split; [exact Hng |]. split; [exact Hinc |].
-  split; [intros d; apply (Hw (LData d)) |]. split; [intros s d g; apply (Hw (LSub s d g)) |].
-  intros Hfx s d g Hin. apply (Hw (LSub s d g)) in Hin. simpl in Hin. destruct Hin as [Hd [lv Hin]].
+  split; [exact Hd |]. split; [exact Hsub |].
+  split; [intros s d g lv H1 H2; apply (Hcmp (mkSub s d g lv)); assumption |].
+  intros Hfx s d g Hin. destruct (Hsub s d g Hin) as [_ [lv Hx]].
   destruct Hc as (_ & _ & _ & _ & Hfix). rewrite Hf in Hfix. specialize (Hfix Hfx).
-  rewrite Forall_forall in Hfix. destruct (Hfix _ Hin) as [_ [A B]]. simpl in A, B. tauto.
+  rewrite Forall_forall in Hfix. destruct (Hfix _ Hx) as [_ [_ B]]. exact B.
 Qed.
